@@ -32,8 +32,8 @@ MANIFEST = {
                   'bounded-preemption component; not exhaustive over schedules.',
     'level_note': 'Trusts sys.monitoring, CPython threading primitives used by the scheduler itself, and the uncached listing.',
 }
-PLAN = {'quick': {'shards': 4, 'timeout': 500, 'budget': 40},
-        'thorough': {'shards': 16, 'timeout': 2400, 'budget': 500}}
+PLAN = {'quick': {'shards': 4, 'timeout': 1800, 'budget': 900},
+        'thorough': {'shards': 16, 'timeout': 7200, 'budget': 2400}}
 LENGTHS = [0, 1, 2, 9, 10, 11, 19, 20, 21, 30]
 BASE = D.datetime(2000, 1, 1, 9)
 
